@@ -201,6 +201,11 @@ func c20Calls(thorough bool) []jcall {
 	}
 	u := ref.B32Encode(c20Key)
 	secrets := []string{u, strings.ToLower(u), " " + ref.B32Encode([]byte("x")) + "== "}
+	// key lengths around the HMAC block sizes (64 for SHA-1/256, 128 for SHA-512)
+	var longKeys [][]byte
+	for _, n := range []int{0, 63, 64, 65, 100, 127, 128, 129, 200} {
+		longKeys = append(longKeys, patt(n, byte(n)))
+	}
 	counters := []any{0, 1, 59, 1<<31 - 1, 1 << 31, uint64(1) << 32, uint64(1)<<53 - 1, uint64(1) << 53}
 	digits := []string{"6", "8", "9", "10", "7", "06", "x", " 8", "8 ", "10.0", "８"}
 	algos := []string{"SHA1", "SHA256", "SHA512", "sha1", "MD5", "sha256", "Sha512", " SHA256", "SHA-256", "SHA2"}
@@ -216,6 +221,24 @@ func c20Calls(thorough bool) []jcall {
 						}
 						add("generateTOTP", "generateTOTP", s, c, d, al, p)
 					}
+				}
+			}
+		}
+	}
+	for _, key := range longKeys {
+		ks := ref.B32Encode(key)
+		if len(key) == 0 {
+			continue // the binding refuses an empty secret string
+		}
+		for _, al := range []string{"SHA1", "SHA256", "SHA512"} {
+			an := refAlgo(al)
+			for _, d := range []string{"6", "10"} {
+				add("long-keys", "generateHOTP", ks, 7, d, al)
+				add("long-keys", "generateTOTP", ks, 59, d, al, 30)
+				dn := refDigits(d)
+				for _, cc := range []uint64{6, 7, 8, 9} {
+					add("long-keys", "validateHOTP", ks, ref.HOTP(key, cc, dn, an), 7, d, al, 1)
+					add("long-keys", "validateTOTP", ks, ref.HOTP(key, cc-5, dn, an), 59, d, al, 1, 30)
 				}
 			}
 		}
